@@ -1461,6 +1461,13 @@ impl<'de, R: Read<'de>> Parser<R> {
 
     #[cfg(feature = "fast-float-parsing")]
     fn f64_from_parts(&mut self, pos: bool, significand: u64, mut exponent: i32) -> Result<f64> {
+        // A small significand absorbs part of a large exponent exactly, which keeps the scaling
+        // below within the exactly representable powers of ten (`123.0e23` is `1230e22`).
+        let mut significand = significand;
+        while exponent > 22 && significand <= (1u64 << 53) / 10 {
+            significand *= 10;
+            exponent -= 1;
+        }
         let mut f = significand as f64;
         loop {
             match POW10.get(exponent.unsigned_abs() as usize) {
